@@ -528,7 +528,7 @@ def sc_torn_blob(args):
         cps = read_cps(os.path.join(sim.repo, ".git", "ai", "working_logs", head, "checkpoints.jsonl")) or []
         ids = [c[0] for c in cps]
         wrong = [{"session": c[0], "files": [f for f, _ in c[1]]} for c in cps
-                 if 1 <= c[0] <= n and [f for f, _ in c[1]] != [c[0] - 1]]
+                 if c[0] == "garbled" or (1 <= c[0] <= n and [f for f, _ in c[1]] != [c[0] - 1])]
         return {"idx": idx, "mode": mode, "n": n, "ids": ids, "missing": sorted(set(range(1, n + 1)) - set(ids)),
                 "wrong_payload": wrong, "bystander_file": n}
     finally:
@@ -549,8 +549,9 @@ def sc_stress(args):
                                stdout=subprocess.DEVNULL, stderr=subprocess.DEVNULL) for k in range(n)]
         rcs = [p.wait(timeout=120) for p in ps]
         final = read_cps(os.path.join(sim.repo, ".git", "ai", "working_logs", head, "checkpoints.jsonl")) or []
-        ids = [c[0] for c in final]
-        return {"idx": idx, "n": n, "ids": ids, "rcs": rcs,
+        garbled = sum(1 for c in final if c[0] == "garbled")
+        ids = [c[0] for c in final if c[0] != "garbled"]
+        return {"idx": idx, "n": n, "ids": ids, "rcs": rcs, "garbled": garbled,
                 "phantom": [i for i in ids if not 1 <= i <= n], "dup": len(ids) != len(set(ids)),
                 "missing": sorted(set(range(1, n + 1)) - set(ids))}
     finally:
@@ -1005,6 +1006,8 @@ def run(ctx):
     items = [(base, i, r.pick([8, 12, 16])) for i in range(rounds)]
     res = C.parallel_map(sc_stress, items, workers=2)
     stress_lost = 0
+    stress_torn = 0
+    torn_sample = None
     for x in res:
         if "error" in x:
             violations.append(("engine error: " + x["error"][-300:], x))
@@ -1017,6 +1020,14 @@ def run(ctx):
                                {"kind": "stress", **x}))
         if x["missing"]:
             stress_lost += 1          # same checkpoints.jsonl, concurrently appended: Known_C11 (K1)
+        if x.get("garbled"):
+            # two overlapping in-place rewrites (both O_TRUNC opens before both writes): the longer writer's tail
+            # survives behind the shorter content as an unparseable fragment, which read_all_checkpoints skips.
+            # Same call site and same read..write overlap as K1; what is observable is the lost checkpoint(s).
+            stress_torn += 1
+            dist["stress-torn-tail"] = dist.get("stress-torn-tail", 0) + 1
+            if x["missing"]:
+                torn_sample = torn_sample or {"processes": x["n"], "kept": x["ids"], "missing": x["missing"]}
     if stress_lost and K1 not in known:
         known.append(K1)
     if len(res) and "ids" in res[0]:
@@ -1105,6 +1116,7 @@ def run(ctx):
         "controlled_schedules_in_Known_C11": n_known_sched,
         "controlled_schedules_with_loss": n_lost_sched,
         "stress_rounds_with_loss": stress_lost,
+        "stress_rounds_with_torn_tail": stress_torn,
         "commit_outcomes": outcomes,
         "known_witnesses": {"C11-K1": k1_witness, "C11-K1(post_commit refresh)": k1b_witness, "C11-K2": k2_witness,
                             "C11-K3": k3_witness, "C11-K4": k4_witness, "C11-K5": k5_witness},
